@@ -463,6 +463,14 @@ func (l *lexer) columnNumber(pos ast.Pos) int {
 	return int(pos) - n
 }
 
+// errorfFrom is errorf for a construct that was never closed (a string, a
+// comment): the error belongs where the construct begins, not at the end of
+// the input, which the scanner has reached looking for its end.
+func (l *lexer) errorfFrom(start ast.Pos, format string, args ...interface{}) stateFn {
+	l.pos = start
+	return l.errorf(format, args...)
+}
+
 // errorf returns an error item and terminates the scan by passing
 // back a nil pointer that will be the next state, terminating l.nextItem.
 func (l *lexer) errorf(format string, args ...interface{}) stateFn {
@@ -700,13 +708,14 @@ func endsValue(typ itemType) bool {
 // - the parameter tokens and identifiers
 // '/**' has just been read.
 func lexSoyDoc(l *lexer) stateFn {
+	var begin = l.pos
 	l.emit(itemSoyDocStart)
 	var star = false
 	var startOfLine = true // ignoring whitespace and asterisks.
 	for {
 		var ch = l.next()
 		if ch == eof {
-			return l.errorf("unexpected eof when scanning soydoc")
+			return l.errorfFrom(begin, "unexpected eof when scanning soydoc")
 		}
 		if star && ch == '/' {
 			maybeEmitText(l, 2)
@@ -800,7 +809,7 @@ func lexBlockComment(l *lexer) stateFn {
 	for {
 		switch l.next() {
 		case eof:
-			return l.errorf("unclosed block comment")
+			return l.errorfFrom(l.start, "unclosed block comment")
 		case '*':
 			star = true
 			continue
@@ -821,7 +830,7 @@ func stringLexer(quoteChar rune) stateFn {
 		for {
 			switch l.next() {
 			case eof:
-				return l.errorf("unexpected eof while scanning string")
+				return l.errorfFrom(l.start, "unexpected eof while scanning string")
 			case '\\':
 				l.next() // skip escape sequences
 			case quoteChar:
@@ -964,6 +973,7 @@ func lexCss(l *lexer) stateFn {
 	l.emit(itemText)
 	l.next()
 	if l.doubleDelim && l.next() != '}' {
+		l.backup()
 		return l.errorf("expected double closing braces in tag")
 	}
 	l.emit(itemRightDelim)
@@ -982,9 +992,11 @@ func lexLiteral(l *lexer) stateFn {
 		ch = l.next()
 	}
 	if ch != '}' {
+		l.backup() // (it may be a line break: the error belongs to this line)
 		return l.errorf("expected closing tag after {literal..")
 	}
 	if l.doubleDelim && l.next() != '}' {
+		l.backup()
 		return l.errorf("expected double closing braces in tag")
 	}
 	l.emit(itemRightDelim)
